@@ -34,6 +34,8 @@ META = {
 }
 
 S = 1 << 20            # count_cache_size / cache_size of the code
+INT32_MAX = 2147483647
+HEAVY_BASE = 4242      # cache slot of the preloaded keys
 LAYOUTS = [(1, 4), (2, 2), (2, 3), (3, 2)]
 POLICIES = ["uniform", "racer", "starve", "late", "burst"]
 ROUTINGS = ["NONE", "NR", "NLNR"]
@@ -43,7 +45,10 @@ RULE = ("seeded scripts: per rank and phase a list of main-context inserts and h
         "scenario also runs, before/after the world run and in the same process, on a sub-communicator from MPI_Comm_split (split 0: "
         "parity of the on-node index, 1: parity of the node / halves) where script ranks and destinations >= its size issue nothing; twin: "
         "two containers of the same type alive at once, key k belongs to container (k >> 20) >= J, each with its own tally and model "
-        "replay; non-trivial = at least one insert was issued while the same rank was inside the send of a flush")
+        "replay; heavy (two thirds of the cases): every rank starts phase 0 with verif_cache_insert_n(key, INT32_MAX-3..INT32_MAX-1) on a key of "
+        "its own (also a second key of the same slot) followed by 1..6 ordinary inserts of it from main, from a handler sent to itself and "
+        "from a handler forwarded back by another rank, counted as n inserts (64-bit) and replayed as one `ins k n` label, so the "
+        "saturation guard must flush exactly when the cached count reaches 2147483647; non-trivial = at least one insert was issued while the same rank was inside the send of a flush")
 
 
 class Rng:
@@ -64,7 +69,7 @@ class Rng:
         return self.next() % n if n else 0
 
 
-def gen_script(seed, nranks, nphases, nops, bases, J, hpct=45, fwdpct=40, vmax=1, hot=70, vmap=None, twin=False):
+def gen_script(seed, nranks, nphases, nops, bases, J, hpct=45, fwdpct=40, vmax=1, hot=70, vmap=None, twin=False, heavy=False):
     """returns (lines, universe, ops); ops = [(phase, rank, kind, d, k, v, d2, k2, v2)] — what the script asks for; what is
     actually contributed on a communicator of a given size is `contributions(ops, size)`.  twin: keys of two containers,
     container of key k = (k >> 20) >= J"""
@@ -81,8 +86,38 @@ def gen_script(seed, nranks, nphases, nops, bases, J, hpct=45, fwdpct=40, vmax=1
         v = 1 + g.below(vmax) if vmax > 1 else 1
         return vmap(v) if vmap else v
 
+    hg = Rng(seed ^ 0x5eed0f10)       # separate stream: the ordinary script does not depend on `heavy`
+
+    def heavy_segment(ph, r):
+        """counting_set only: rank r starts the phase with a key of its own whose cached count is preloaded to
+        INT32_MAX-3 .. INT32_MAX-1 (verif_cache_insert_n), followed by 1..6 ordinary inserts of that key from the main
+        program, from a handler it sends to itself and from a handler forwarded back by another rank — so the count
+        passes 2147483647, where cache_insert must flush; then (half of the time) the same with a second key of the same
+        slot.  A preload is the first operation on its key in the phase, so it always applies in full."""
+        ka, kb = HEAVY_BASE + (20 + 2 * r) * S, HEAVY_BASE + (21 + 2 * r) * S
+        for k in ([ka, kb] if hg.below(2) else [ka]):
+            n = INT32_MAX - 1 - hg.below(3)
+            lines.append(f"{r} n {k} {n}")
+            ops.append((ph, r, "n", -1, k, n, -1, 0, 0))
+            for _ in range(1 + hg.below(6)):
+                how = hg.below(3)
+                if how == 0:
+                    lines.append(f"{r} i {k} 1")
+                    ops.append((ph, r, "i", -1, k, 1, -1, 0, 0))
+                elif how == 1:
+                    lines.append(f"{r} h {r} {k} 1 -1 0 0")
+                    ops.append((ph, r, "h", r, k, 1, -1, 0, 0))
+                else:
+                    d, x = hg.below(nranks), bases[0]
+                    lines.append(f"{r} h {d} {x} 1 {r} {k} 1")
+                    ops.append((ph, r, "h", d, x, 1, r, k, 1))
+
+    if heavy:
+        universe += [HEAVY_BASE + (20 + j) * S for j in range(2 * nranks)]
     for ph in range(nphases):
         for r in range(nranks):
+            if heavy and ph == 0:
+                heavy_segment(ph, r)
             for _ in range(nops):
                 k, v = key(), val()
                 if g.below(100) < hpct:
@@ -109,7 +144,7 @@ def contributions(ops, size):
     for (ph, r, kind, d, k, v, d2, k2, v2) in ops:
         if r >= size:
             continue
-        if kind == "i":
+        if kind in ("i", "n"):
             out.append((ph, k, v))
         elif d < size:
             out.append((ph, k, v))
@@ -344,6 +379,7 @@ def add_dimensions(cases, g):
         c["subcomm"] = [0, 0, 1, 0, 0, 0, 2, 0][i % 8]
         c["split"] = (i // 8) % 2 if c["subcomm"] else 0
         c["twin"] = 1 if i % 5 == 1 else 0
+        c["heavy"] = 1 if i % 3 != 1 else 0
     return cases
 
 
@@ -373,7 +409,7 @@ def run_case(binary, scratch, case, idx, mode="cset", extra_args=(), vmap=None):
     n = case["nodes"] * case["ppn"]
     lines, universe, ops = gen_script(case["script_seed"], n, case["phases"], case["nops"], case["bases"], case["J"],
                                       hpct=case["hpct"], fwdpct=case["fwdpct"], vmax=case.get("vmax", 1), hot=case["hot"], vmap=vmap,
-                                      twin=bool(case.get("twin")))
+                                      twin=bool(case.get("twin")), heavy=bool(case.get("heavy")) and mode == "cset")
     path = scratch.script(f"s{idx}.txt", lines, universe, case.get("len"))
     args = [mode, path] + (list(extra_args) or [0]) + [case.get("subcomm", 0), case.get("split", 0)]
     sr = C.run_sim(binary, args, nodes=case["nodes"], ppn=case["ppn"],
@@ -421,9 +457,10 @@ def judge_cset(res, case, view, c, ncont, universe, ops, model_ok, acc):
     uni = [k for k in universe if cid(k) == c]
     fails = []
     tally = {}
-    for (_, k, _) in contrib:
-        tally[k] = tally.get(k, 0) + 1
-    cum = [sum(1 for (p, _, _) in contrib if p <= ph) for ph in range(case["phases"])]
+    for (_, k, v) in contrib:
+        tally[k] = tally.get(k, 0) + v          # a preload of n counts as n inserts (64-bit counts)
+    total = sum(v for (_, _, v) in contrib)
+    cum = [sum(v for (p, _, v) in contrib if p <= ph) for ph in range(case["phases"])]
     secs = {r: sections(view["outs"].get(r, [])) for r in range(g)}
     real_count = {}
     for r in range(g):
@@ -435,8 +472,10 @@ def judge_cset(res, case, view, c, ncont, universe, ops, model_ok, acc):
         bad = {k: (cnt.get(k), tally.get(k, 0)) for k in uni if cnt.get(k) != tally.get(k, 0)}
         if bad:
             fails.append(("count(k) != number of inserts of k", {"rank": r, "key: (real, expected)": bad}))
-        if int(o.get("countall", [["-1"]])[0][0]) != len(contrib):
-            fails.append(("count_all != number of inserts", {"rank": r, "real": o.get("countall"), "expected": len(contrib)}))
+        if int(o.get("countall", [["-1"]])[0][0]) != total:
+            fails.append(("count_all != number of inserts", {"rank": r, "real": o.get("countall"), "expected": total}))
+        if "nopreload" in pre:
+            fails.append(("the tree has no counting_set::verif_cache_insert_n (YGM_VERIF_HOOKS): the saturation guard cannot be reached", {}))
         if int(o.get("size", [["-1"]])[0][0]) != len(tally):
             fails.append(("size != number of distinct keys", {"rank": r, "real": o.get("size"), "expected": len(tally)}))
         snaps = [int(w[1 + c]) for w in outs_by_tag(pre).get("snap", [])]
@@ -482,6 +521,9 @@ def judge_cset(res, case, view, c, ncont, universe, ops, model_ok, acc):
                                         "what": f"rank {r}: reg={p['reg']} stack={p['stack']} cache={p['cache']}"}
             for (_, k, cnt) in p["out"]:
                 msum[k] = msum.get(k, 0) + cnt
+                if cnt == INT32_MAX:
+                    res.count("saturation-flushes (count reached INT32_MAX, replayed through the model)")
+        res.count("preloads (verif_cache_insert_n)", sum(1 for (_, _, v) in contrib if v > 1))
         if mismatch is None and msum != {k: v for k, v in real_count.items() if v}:
             mismatch = {"relation": "sum of the counts the model emits = count(k) of the real run", "what": f"model {msum} real {real_count}"}
         # every packed key executes exactly once on the owner (C01, observed)
